@@ -496,6 +496,16 @@ where
             .unwrap_or_default();
         let cache =
             dashmap::DashMap::with_capacity_and_hasher(initial_capacity, build_hasher.clone());
+        // Verification hook: a shard count that does not depend on the CPU count.
+        #[cfg(mini_moka_verif)]
+        let cache = match crate::verif::shard_amount() {
+            0 => cache,
+            n => dashmap::DashMap::with_capacity_and_hasher_and_shard_amount(
+                initial_capacity,
+                build_hasher.clone(),
+                n,
+            ),
+        };
 
         Self {
             max_capacity,
@@ -1246,6 +1256,190 @@ where
         } else {
             self.has_expiration_clock.store(false, Ordering::SeqCst);
             *exp_clock = None;
+        }
+    }
+}
+
+//
+// Verification hooks: mock clock and popularity estimate
+//
+#[cfg(mini_moka_verif)]
+impl<K, V, S> BaseCache<K, V, S>
+where
+    K: Hash + Eq + Send + Sync + 'static,
+    V: Clone + Send + Sync + 'static,
+    S: BuildHasher + Clone + Send + Sync + 'static,
+{
+    /// Installs a mock expiration clock and re-bases the housekeeper on it.
+    pub(crate) fn verif_install_mock_clock(&self) -> crate::verif::MockClock {
+        let (clock, mock) = Clock::verif_mock();
+        {
+            let mut exp_clock = self.inner.expiration_clock.write().expect("lock poisoned");
+            *exp_clock = Some(clock);
+            self.inner.has_expiration_clock.store(true, Ordering::SeqCst);
+        }
+        if let Some(hk) = &self.housekeeper {
+            hk.verif_reset(self.inner.current_time_from_expiration_clock());
+        }
+        crate::verif::MockClock::new(mock)
+    }
+
+    /// The popularity estimate admission would read for `key` right now.
+    pub(crate) fn verif_estimate<Q>(&self, key: &Q) -> u8
+    where
+        Arc<K>: Borrow<Q>,
+        Q: Hash + Eq + ?Sized,
+    {
+        let hash = self.inner.hash(key);
+        self.inner
+            .frequency_sketch
+            .read()
+            .expect("lock poisoned")
+            .frequency(hash)
+    }
+}
+
+//
+// Verification hook: snapshot of the whole internal state
+//
+#[cfg(mini_moka_verif)]
+fn verif_entry_snap<K, V>(
+    key: u64,
+    entry: &TrioArc<ValueEntry<K, V>>,
+    value_id: &impl Fn(&V) -> u64,
+) -> crate::verif::EntrySnap {
+    let info = entry.entry_info();
+    crate::verif::EntrySnap {
+        key,
+        value: value_id(&entry.value),
+        entry_addr: (&**entry) as *const ValueEntry<K, V> as usize,
+        info_addr: (&**info) as *const EntryInfo<K> as usize,
+        weight: info.policy_weight(),
+        last_accessed: info.last_accessed().map(|t| t.verif_std()),
+        last_modified: info.last_modified().map(|t| t.verif_std()),
+        dirty: info.is_dirty(),
+        admitted: info.is_admitted(),
+        ao_node: info.access_order_q_node().map(|n| {
+            let (p, tag) = n.decompose();
+            (p.as_ptr() as usize, tag)
+        }),
+        wo_node: info.write_order_q_node().map(|p| p.as_ptr() as usize),
+    }
+}
+
+#[cfg(mini_moka_verif)]
+impl<K, V, S> BaseCache<K, V, S>
+where
+    K: Hash + Eq + Send + Sync + 'static,
+    V: Clone + Send + Sync + 'static,
+    S: BuildHasher + Clone + Send + Sync + 'static,
+{
+    /// Describes the complete internal state. Takes the deques lock, so it must not
+    /// be called while maintenance is running on another thread. The two op queues
+    /// are drained, described and re-sent in the same order; nothing else is
+    /// modified.
+    pub(crate) fn verif_snapshot(
+        &self,
+        key_id: impl Fn(&K) -> u64,
+        value_id: impl Fn(&V) -> u64,
+    ) -> crate::verif::Snapshot {
+        use crate::verif::{snap_deque, snap_sketch, NodeSnap, OpSnap, Snapshot};
+
+        let inner = &*self.inner;
+        let deqs = inner.deques.lock().expect("lock poisoned");
+
+        let mut entries: Vec<_> = inner
+            .cache
+            .iter()
+            .map(|r| verif_entry_snap(key_id(r.key()), r.value(), &value_id))
+            .collect();
+        entries.sort_by_key(|e| e.key);
+
+        let ao = |e: &KeyHashDate<K>, addr: usize| NodeSnap {
+            addr,
+            key: key_id(e.key()),
+            hash: Some(e.hash()),
+            info_addr: e.entry_info() as *const EntryInfo<K> as usize,
+            timestamp: None,
+        };
+        let wo = |e: &KeyDate<K>, addr: usize| NodeSnap {
+            addr,
+            key: key_id(e.key()),
+            hash: None,
+            info_addr: e.verif_entry_info() as *const EntryInfo<K> as usize,
+            timestamp: None,
+        };
+
+        let mut read_ops = Vec::new();
+        let mut pending_reads = Vec::new();
+        while let Ok(op) = inner.read_op_ch.try_recv() {
+            read_ops.push(match &op {
+                ReadOp::Hit(hash, entry, ts) => OpSnap::Hit {
+                    hash: *hash,
+                    // The key of a hit is not recorded in the op.
+                    entry: verif_entry_snap(u64::MAX, entry, &value_id),
+                    timestamp: ts.verif_std(),
+                },
+                ReadOp::Miss(hash) => OpSnap::Miss { hash: *hash },
+            });
+            pending_reads.push(op);
+        }
+        for op in pending_reads {
+            self.read_op_ch
+                .try_send(op)
+                .unwrap_or_else(|_| panic!("verif: cannot re-send a read op"));
+        }
+
+        let mut write_ops = Vec::new();
+        let mut pending_writes = Vec::new();
+        while let Ok(op) = inner.write_op_ch.try_recv() {
+            write_ops.push(match &op {
+                WriteOp::Upsert {
+                    key_hash,
+                    value_entry,
+                    old_weight,
+                    new_weight,
+                } => OpSnap::Upsert {
+                    hash: key_hash.hash,
+                    entry: verif_entry_snap(key_id(&key_hash.key), value_entry, &value_id),
+                    old_weight: *old_weight,
+                    new_weight: *new_weight,
+                },
+                WriteOp::Remove(kv) => OpSnap::Remove {
+                    entry: verif_entry_snap(key_id(&kv.key), &kv.entry, &value_id),
+                },
+            });
+            pending_writes.push(op);
+        }
+        for op in pending_writes {
+            self.write_op_ch
+                .try_send(op)
+                .unwrap_or_else(|_| panic!("verif: cannot re-send a write op"));
+        }
+
+        let (sync_running, sync_after) = self
+            .housekeeper
+            .as_ref()
+            .map(|hk| hk.verif_state())
+            .unwrap_or((false, None));
+
+        Snapshot {
+            entries,
+            window: snap_deque(&deqs.window, ao),
+            probation: snap_deque(&deqs.probation, ao),
+            protected: snap_deque(&deqs.protected, ao),
+            write_order: snap_deque(&deqs.write_order, wo),
+            entry_count: inner.entry_count.load(),
+            weighted_size: inner.weighted_size.load(),
+            sketch: snap_sketch(
+                &inner.frequency_sketch.read().expect("lock poisoned"),
+                inner.frequency_sketch_enabled.load(Ordering::Acquire),
+            ),
+            valid_after: inner.valid_after().map(|t| t.verif_std()),
+            sync_after: sync_after.map(|t| t.verif_std()),
+            sync_running,
+            read_ops,
+            write_ops,
         }
     }
 }
